@@ -22,6 +22,8 @@ counter attribute of the brand-new connection (9998, 9999, 10000, 19999, 99999, 
 anything is sent — no schedule bound reaches 10**4 requests — and "jump" scenarios set it to preset+10**4
 (10**8) after the threads and issue the same number of requests again on the SAME connection: all ids of
 the execution must be pairwise distinct and the numbers must be the injected counter values onwards.
+"solo" scenarios build ONE connection object and nothing else on its ``_HttpConnImpl`` (no derived
+connection, caller or clone is ever constructed); both threads use that single object.
 "fault" scenarios are FAULT INJECTION on the transport: ``opener.open`` is an explicit scheduling point (the
 thread sits inside ``open()`` while the other thread may issue and finish whole requests) and then raises
 ``urllib.error.URLError`` / ``HTTPError`` for the marked request.  A request that reached ``open()`` was
@@ -84,6 +86,7 @@ REQUIRED_FEATURES = ["threads:2", "preemptions:0", "preemptions:1", "preemptions
                      "shared-caller-headers-dict:same-thread", "preset-counter", "preset-counter:crosses-10000",
                      "preset-counter:crosses-decimal-width", "preset-counter:beyond-8-digits",
                      "preset-counter:jump+10000", "preset-counter:jump+100000000",
+                     "via:single-connection-object",
                      "caller-id:falsy-str", "caller-id:falsy-bytes", "caller-id:falsy-int",
                      "fault:URLError", "fault:HTTPError", "fault:other-request-completed-while-inside-open"]
 
@@ -125,6 +128,10 @@ _SCEN = {
                                       "sparse", False),
     # ---- non-initial start states (STATE INJECTION, see _inject_counter): the counter of the brand-new
     # connection is preset, so that the decimal-width / modulo boundaries of the id format are crossed
+    # ---- ONE connection object: nothing is ever derived from it; both threads use that same object
+    "2t-solo-base|base": ([[_r("solo")], [_r("solo")]], "sparse", True),
+    "2t-solo-fresh-base|base": ([[_r("solo")], [_r("solo")]], "sparse", False),
+    "2t-solo-fresh-2+1": ([[_r("solo"), _r("solo", hdr=SH)], [_r("solo", hdr=SH)]], "sparse", False),
     # ---- falsy caller-supplied ids: '' , b'' , 0 are ids supplied by the caller
     "2t-ownid-emptystr+bauth|clone": ([[_r("base", ""), _r("bauth")], [_r("clone")]], "sparse", True),
     "2t-ownid-emptybytes|prefixed+base": ([[_r("bauth", {"bytes": ""})], [_r("prefixed"), _r("base")]], "sparse", True),
@@ -158,6 +165,7 @@ PLAN = {
     "quick": [("2t-base|bauth", 2, 6), ("2t-prefixed|clone", 2, 6), ("2t-fresh-base|clone", 2, 6),
               ("2t-ownid+bauth|clone", 2, 8), ("2t-sharedhdr-base+prefixed|bauth", 2, 8),
               ("2t-full-base|clone", 1, 4), ("2t-full-fresh-sharedhdr-bauth|base", 1, 4),
+              ("2t-solo-base|base", 2, 6), ("2t-solo-fresh-base|base", 2, 6), ("2t-solo-fresh-2+1", 1, 2),
               ("2t-ownid-emptystr+bauth|clone", 2, 8), ("2t-ownid-emptybytes|prefixed+base", 1, 2),
               ("2t-ownid-zero-fresh-clone|base", 1, 2),
               ("2t-urlerror-base|bauth", 2, 6), ("2t-httperror-clone|base", 2, 6),
@@ -171,6 +179,7 @@ PLAN = {
                  ("2t-ownid+bauth|clone", 3, 16), ("2t-sharedhdr-base+prefixed|bauth", 3, 16), ("2t-2x2", 2, 8),
                  ("2t-full-base|clone", 2, 16), ("2t-full-fresh-sharedhdr-bauth|base", 2, 16),
                  ("3t-base|bauth|clone", 2, 8), ("3t-fresh-ownid|prefixed|clone", 2, 8),
+                 ("2t-solo-base|base", 3, 12), ("2t-solo-fresh-base|base", 3, 12), ("2t-solo-fresh-2+1", 2, 8),
                  ("2t-ownid-emptystr+bauth|clone", 3, 16), ("2t-ownid-emptybytes|prefixed+base", 2, 8),
                  ("2t-ownid-zero-fresh-clone|base", 2, 8),
                  ("2t-urlerror-base|bauth", 3, 12), ("2t-httperror-clone|base", 3, 12),
@@ -321,11 +330,17 @@ class _Harness:
         return False
 
 
-def _build_world():
+def _build_world(solo=False):
+    """solo: ONE connection object only — no derived connection, no caller, no clone is ever constructed
+    on this _HttpConnImpl (both threads then use that single object)."""
     random.seed(0)
     if _MODSTATE.restore():
         _LEAKS[0] += 1
     base = conn_http.HttpConn("http://h:8080")
+    if solo:
+        rec = Recorder()
+        base.conn_impl.opener = rec
+        return {"base": base, "shared_headers": {"X-Trace": "trace-1"}}, rec, True
     bauth = conn_http.BAuthConn(base, "user", "pw")
     prefixed = conn_http.HttpConn(bauth, adapters=conn_http.RequestAdapterAddPathPrefix("/pfx"))
     clone = _Caller(base).clone(conn_http.BAuthConn.Adapter("u2", "p2"))
@@ -344,6 +359,9 @@ def _do(world, req, token):
         headers = world["shared_headers"]       # one caller-owned dict object for the whole execution
     via = req["via"]
     path = "/" + token
+    if via == "solo":
+        return world["base"].post(path, data={"k": 1}, headers=headers) if token.endswith("r1") \
+            else world["base"].get(path, headers=headers)
     if via == "base":
         return world["base"].get(path, headers=headers)
     if via == "bauth":
@@ -401,11 +419,13 @@ def execute(threads, deviations, warm=True, preset=None, jump=None):
     preset: counter value injected into the brand-new connection before anything is sent.
     jump:   after the threads, the counter is set to preset+jump and as many sequential requests as were
             issued before are sent again ("j0", "j1", ...) instead of the single final request."""
-    world, rec, shared = _build_world()
+    solo = all(rq["via"] == "solo" for reqs in threads for rq in reqs)
+    seq = "solo" if solo else "base"
+    world, rec, shared = _build_world(solo)
     if preset is not None:
         _inject_counter(world, preset)
     if warm:
-        _do(world, _r("base"), "warm")      # (cannot block: nothing has run on this connection yet)
+        _do(world, _r(seq), "warm")      # (cannot block: nothing has run on this connection yet)
 
     raised = {}
     for t, reqs in enumerate(threads):
@@ -430,12 +450,12 @@ def execute(threads, deviations, warm=True, preset=None, jump=None):
     if not ex.deadlock and not ex.error:
         try:
             if jump is None:
-                _do(world, _r("base"), "final")
+                _do(world, _r(seq), "final")
             else:
                 _inject_counter(world, preset + jump)
                 n = (1 if warm else 0) + sum(1 for reqs in threads for rq in reqs if rq["own_id"] is None)
                 for i in range(n):
-                    _do(world, _r(("base", "bauth", "clone")[i % 3]), f"j{i}")
+                    _do(world, _r(seq if solo else ("base", "bauth", "clone")[i % 3]), f"j{i}")
         except sched.HarnessError:
             raise
         except sched.UncontrolledBlock as e:
@@ -558,7 +578,7 @@ def _features(name, threads, mode, warm=True, preset=None, jump=None):
             f.add("two-requests-in-one-thread")
         for rq in reqs:
             f.add({"base": "via:base", "bauth": "via:bauth", "prefixed": "via:prefixed",
-                   "clone": "via:clone-wrapper"}[rq["via"]])
+                   "clone": "via:clone-wrapper", "solo": "via:single-connection-object"}[rq["via"]])
             if rq["own_id"] is not None:
                 f.add("caller-id")
                 v = _own_value(rq["own_id"])
